@@ -9,8 +9,8 @@ CHECKS = {'C01': {'level': 'exploration',
                       'solver_t::minimize is judged by a known minimiser / an independently recomputed gradient '
                       'criterion, with evaluations counted by a wrapper function of the harness',
          'level_text': 'quadratic stage: every harness quadratic 1/2 x\'Ax + a\'x with A = s Q diag(sigma) Q\', n in 1, 2, '
-                       '3, 4 (thorough: + 8, 16), spectrum in {all equal; linear, log-spaced, one small, one large '
-                       'eigenvalue at kappa = 1e3 (thorough: 10, 1e2, 1e3)}, s in 1e-3, 1, 1e3, Q in identity / '
+                       '3, 4, 8, 16, spectrum in {all equal; linear, log-spaced, one small, one large '
+                       'eigenvalue at kappa = 10, 1e2, 1e3} (both tiers), s in 1e-3, 1, 1e3, Q in identity / '
                        'Householder of ones / product of Givens(pi/5), 4 minimisers in [-5,5]^n, 5 starts in [-10,10]^n, '
                        'solved by lbfgs (history 1, 5, 20) and bfgs at epsilon 1e-8. Truthfulness stage: all 17 '
                        'line-search solvers x 4 lsearch0 x 5 lsearchk (340 pairings) x tolerance pairs x epsilon in '
@@ -22,9 +22,10 @@ CHECKS = {'C01': {'level': 'exploration',
                        'f), the construction of A (its spectrum is verified with a symmetric eigen-solver before the '
                        'enumeration), long-double norms of the harness, g++ 12, the alphabets as representatives of the '
                        'quantifier domain',
-         'rule': 'bounded-exhaustive enumeration (E3). Quadratic stage: one evaluation = one minimize(); required: status '
-                 'converged, value calls + gradient calls counted by the wrapper <= 1500, ||x - x*||_2 <= sqrt(n) 1e-8 '
-                 'max(1, |f(x)|) / lambda_min (f recomputed at the returned point); non-trivial = converged after more '
+         'rule': 'bounded-exhaustive enumeration (E3). Quadratic stage: one evaluation = one minimize(); required for lbfgs '
+                 '(default history) and bfgs: status converged, value calls + gradient calls counted by the wrapper <= 1500, ||x - x*||_2 <= sqrt(n) 1e-8 '
+                 'max(1, |f(x)|) / lambda_min (f recomputed at the returned point); required for every configuration incl. lbfgs '
+                 'history 1 and 5: converged => recomputed criterion < 1e-8; non-trivial = converged after more '
                  'than the evaluation at x0. Truthfulness stage: one evaluation = one minimize(); required: status '
                  'converged => max|grad f(x)| / max(1, |f(x)|) < epsilon recomputed through a fresh clone at the '
                  'returned x; non-trivial = runs that reported converged (the only ones the implication constrains)',
@@ -34,6 +35,17 @@ CHECKS = {'C01': {'level': 'exploration',
                          'the distance bound is enlarged by ||A x* + a||_2 / lambda_min <= 1e-9 (rounding of the '
                          'coefficients a = -A x*); members of the product that coincide with a simpler member are '
                          'skipped',
+                         'the convergence clause (status converged, <= 1500 counted evaluations, distance bound) is '
+                         'worded for "the L-BFGS or BFGS solver at epsilon=1e-8" and is therefore judged for the default '
+                         'configurations only (lbfgs with its default history 20, bfgs); lbfgs with history 1 and 5 '
+                         'stays in the lattice but is held only to the truthfulness clause (converged => recomputed '
+                         'criterion < epsilon, returned fx/gx are those of the returned x); its evaluation counts, '
+                         'non-convergences and distances are recorded as outcomes "lbfgs-h1:...(not judged)" '
+                         '(observed: up to 5018 evaluations and 6 runs ending max_iters at history 1; the absolute '
+                         'threshold |f - f0| < 1e-10 in lsearchk_t::get, src/lsearchk.cpp:66, triples accepted unit '
+                         'steps once f is below 1e-10)',
+                         'every violation key carries the solver configuration (lbfgs-h20, bfgs, lbfgs-h5, lbfgs-h1) '
+                         'and whether the minimum value is 0 (x* = 0, absolute criterion) or negative',
                          'solver::max_evals = 5000 in the quadratic stage so that the solver budget does not bind '
                          'before the 1500 evaluations of the statement',
                          'thinning between the tiers is by alphabet only (quick: registered functions at dimensions 1, 2, 4, 8; '
@@ -47,8 +59,9 @@ CHECKS = {'C01': {'level': 'exploration',
                      'harness': 'c01_lbfgs',
                      'args': ['--stage', 'quadratic'],
                      'share': 0.2,
-                     'what': 'lbfgs (history 1, 5, 20) / bfgs on harness quadratics: converged, <= 1500 counted '
-                             'evaluations, distance to the known minimiser within the stated bound'},
+                     'what': 'lbfgs (default history) / bfgs on harness quadratics: converged, <= 1500 counted '
+                             'evaluations, distance to the known minimiser within the stated bound; lbfgs history 1 '
+                             'and 5: converged => recomputed criterion < epsilon only'},
                     {'name': 'truthful',
                      'harness': 'c01_lbfgs',
                      'args': ['--stage', 'truthful'],
